@@ -11,6 +11,9 @@ __exit__, stop, check) is interpreted over schedules of two execution threads an
 abandoned thread that unwinds later never takes the tracer from the thread that runs by then.  An
 executor that runs a test twice starts the second run only after `not timeout`.
 The wall-clock bound itself is not decided.
+Further clauses (added later): C32.proxy: single-call methods of the tracer proxy forward to the wrapped
+method of the same name; C32.namespace: the namespace dict of an execution is created per call and not kept on
+the executor.
 """
 
 from __future__ import annotations
